@@ -742,13 +742,16 @@ DEREF_TYPES = [("::std::string::String", "::std::string::String::from(\"s\")", "
                ("u8", "3u8", "8u8"), ("::std::vec::Vec<u32>", "::std::vec![1u32]", "::std::vec![5u32, 6]"), ("&'static str", "\"x\"", "\"yy\"")]
 
 
-def deref_module(idx, named, ti, generic, entry, where=False, bounds=None):
+def deref_module(idx, named, ti, generic, entry, where=False, bounds=None, repr_=None):
     ty, v1, v2 = DEREF_TYPES[ti]
     dlist = {None: ["Deref", "DerefMut"], "this_empty": ["Deref(bound())", "DerefMut(bound())"], "shared_empty": ["Deref", "DerefMut", "bound()"],
              "this_dd": ["Deref(bound(..))", "DerefMut(bound(..))"], "this_pred": ["Deref(bound(G: ::core::clone::Clone))", "DerefMut(bound(G: ::core::clone::Clone, ..))"]}[bounds]
     fty = "G" if generic else ty
     g = ("<G: ::core::clone::Clone>" if where is False else "<G>") if generic else ""
     w = " where G: ::core::clone::Clone" if (generic and where) else ""
+    if generic and where == "default":
+        # a defaulted type parameter next to a defaulted const parameter (defaults belong to the item, not to the impl header)
+        g, w = "<G = %s, const N: usize = 0>" % ty, " where G: ::core::clone::Clone, [u8; N]: ::core::marker::Sized"
     if named:
         fnm = named if isinstance(named, str) else "inner"          # (a field name given as a string: raw keywords, generator locals, ..)
         decl = "pub struct T%s%s { %s: %s }" % (g, w, fnm, fty)
@@ -757,6 +760,8 @@ def deref_module(idx, named, ti, generic, entry, where=False, bounds=None):
         decl = "pub struct T%s(%s)%s;" % (g, fty, w)
         acc, mk = "x.0", "T(%s)"
     TT = "T<%s>" % ty if generic else "T"
+    if repr_:
+        decl = "#[repr(%s)] %s" % (repr_, decl)
     return """pub mod m%d {
     %s %s
     pub fn run() -> String {
